@@ -14,8 +14,11 @@ import (
 	"net/http/httptest"
 	"strings"
 
+	"github.com/ThreeDotsLabs/watermill/message"
 	ledger "github.com/formancehq/ledger/internal"
 	"github.com/formancehq/ledger/internal/api"
+	"github.com/formancehq/ledger/internal/bus"
+	"github.com/formancehq/ledger/pkg/events"
 	"github.com/formancehq/ledger/internal/engine"
 	"github.com/formancehq/ledger/internal/engine/command"
 	"github.com/formancehq/ledger/internal/opentelemetry/metrics"
@@ -24,32 +27,150 @@ import (
 	"github.com/formancehq/ledger/verifx/vx"
 	"github.com/formancehq/stack/libs/go-libs/auth"
 	"github.com/formancehq/stack/libs/go-libs/health"
-	"github.com/formancehq/stack/libs/go-libs/metadata"
 )
 
+// event: one message as the REAL bus monitor (internal/bus: ledgerMonitor + message.go + libs/publish) put it on the
+// publisher, decoded from the JSON a subscriber receives
 type event struct {
-	Kind     string
+	Kind     string // committed | saved_metadata | reverted | deleted_metadata
+	Topic    string
 	TxID     string
 	Reverted string
 	DiskLen  int
+	Payload  json.RawMessage
 }
-type monitor struct {
+
+// recorder is the message.Publisher handed to bus.NewLedgerMonitor
+type recorder struct {
 	disk   *engx.Disk
 	events *[]event
 }
 
-func (m monitor) add(e event) { e.DiskLen = len(m.disk.Logs); *m.events = append(*m.events, e) }
-func (m monitor) CommittedTransactions(ctx context.Context, res ledger.Transaction, am map[string]metadata.Metadata) {
-	m.add(event{Kind: "committed", TxID: res.ID.String()})
+func (p recorder) Close() error { return nil }
+func (p recorder) Publish(topic string, msgs ...*message.Message) error {
+	for _, m := range msgs {
+		var em struct {
+			Type    string          `json:"type"`
+			Payload json.RawMessage `json:"payload"`
+		}
+		e := event{Topic: topic, DiskLen: len(p.disk.Logs)}
+		if err := json.Unmarshal(m.Payload, &em); err != nil {
+			e.Kind = "undecodable:" + err.Error()
+			*p.events = append(*p.events, e)
+			continue
+		}
+		e.Payload = em.Payload
+		switch em.Type {
+		case events.EventTypeCommittedTransactions:
+			e.Kind = "committed"
+			var c bus.CommittedTransactions
+			if json.Unmarshal(em.Payload, &c) == nil && len(c.Transactions) == 1 && c.Transactions[0].ID != nil {
+				e.TxID = c.Transactions[0].ID.String()
+			}
+		case events.EventTypeSavedMetadata:
+			e.Kind = "saved_metadata"
+		case events.EventTypeRevertedTransaction:
+			e.Kind = "reverted"
+			var c bus.RevertedTransaction
+			if json.Unmarshal(em.Payload, &c) == nil && c.RevertTransaction.ID != nil && c.RevertedTransaction.ID != nil {
+				e.TxID, e.Reverted = c.RevertTransaction.ID.String(), c.RevertedTransaction.ID.String()
+			}
+		case events.EventTypeDeletedMetadata:
+			e.Kind = "deleted_metadata"
+		default:
+			e.Kind = "unknown-type:" + em.Type
+		}
+		if topic != em.Type {
+			e.Kind += ":topic-differs"
+		}
+		*p.events = append(*p.events, e)
+	}
+	return nil
 }
-func (m monitor) SavedMetadata(ctx context.Context, targetType, id string, md metadata.Metadata) {
-	m.add(event{Kind: "saved_metadata"})
+
+// canon: JSON value with object keys sorted (json.Marshal of map[string]any sorts) for comparison of contents
+func canon(v any) string {
+	b, err := json.Marshal(v)
+	if err != nil {
+		return "unmarshalable:" + err.Error()
+	}
+	var x any
+	if json.Unmarshal(b, &x) != nil {
+		return string(b)
+	}
+	b, _ = json.Marshal(x)
+	return string(b)
 }
-func (m monitor) RevertedTransaction(ctx context.Context, reverted, revert *ledger.Transaction) {
-	m.add(event{Kind: "reverted", TxID: revert.ID.String(), Reverted: reverted.ID.String()})
+
+func emptyIfNull(s string) string {
+	if s == "null" {
+		return "{}"
+	}
+	return s
 }
-func (m monitor) DeletedMetadata(ctx context.Context, targetType string, targetID any, key string) {
-	m.add(event{Kind: "deleted_metadata"})
+
+// faithful: does the event carry the content of the persisted entry l? "" or what differs
+func faithful(e event, l *ledger.ChainedLog) string {
+	var pl map[string]json.RawMessage
+	if err := json.Unmarshal(e.Payload, &pl); err != nil {
+		return "payload-not-an-object"
+	}
+	get := func(k string) string {
+		var x any
+		if json.Unmarshal(pl[k], &x) != nil {
+			return "absent"
+		}
+		b, _ := json.Marshal(x)
+		return string(b)
+	}
+	if get("ledger") != `"l0"` {
+		return "ledger"
+	}
+	switch d := l.Data.(type) {
+	case ledger.NewTransactionLogPayload:
+		if e.Kind != "committed" {
+			return "kind"
+		}
+		if get("transactions") != canon([]ledger.Transaction{*d.Transaction}) {
+			return "transaction"
+		}
+		if emptyIfNull(get("accountMetadata")) != emptyIfNull(canon(d.AccountMetadata)) {
+			return "account-metadata"
+		}
+	case ledger.RevertedTransactionLogPayload:
+		if e.Kind != "reverted" {
+			return "kind"
+		}
+		if get("revertTransaction") != canon(*d.RevertTransaction) {
+			return "revert-transaction"
+		}
+		var rt struct {
+			ID *big.Int `json:"id"`
+		}
+		if json.Unmarshal(pl["revertedTransaction"], &rt) != nil || rt.ID == nil || rt.ID.Cmp(d.RevertedTransactionID) != 0 {
+			return "reverted-transaction"
+		}
+	case ledger.SetMetadataLogPayload:
+		if e.Kind != "saved_metadata" {
+			return "kind"
+		}
+		if get("targetType") != canon(d.TargetType) || get("targetId") != canon(fmt.Sprint(d.TargetID)) {
+			return "target"
+		}
+		if emptyIfNull(get("metadata")) != emptyIfNull(canon(d.Metadata)) {
+			return "metadata"
+		}
+	case ledger.DeleteMetadataLogPayload:
+		if e.Kind != "deleted_metadata" {
+			return "kind"
+		}
+		var tid any
+		_ = json.Unmarshal(pl["targetId"], &tid)
+		if get("targetType") != canon(d.TargetType) || fmt.Sprint(tid) != fmt.Sprint(d.TargetID) || get("key") != canon(d.Key) {
+			return "target-or-key"
+		}
+	}
+	return ""
 }
 
 type hreq struct {
@@ -64,6 +185,7 @@ type hreq struct {
 	Force   bool              `json:"force,omitempty"`
 	Account string            `json:"account,omitempty"`
 	Key     string            `json:"key,omitempty"`
+	AccMeta string            `json:"set_account_meta,omitempty"` // script: also set_account_meta(@<dst>, "tag", <this>)
 }
 
 func isDry(v string) bool {
@@ -81,7 +203,7 @@ type world struct {
 func boot(disk *engx.Disk) *world {
 	w := &world{disk: disk}
 	store := &engx.Store{D: disk}
-	c := command.New(store, command.NewDefaultLocker(), command.NewCompiler(64), command.NewReferencer(), monitor{disk, &w.events})
+	c := command.New(store, command.NewDefaultLocker(), command.NewCompiler(64), command.NewReferencer(), bus.NewLedgerMonitor(recorder{disk, &w.events}, "l0"))
 	if err := c.Init(context.Background()); err != nil {
 		panic(err)
 	}
@@ -148,6 +270,9 @@ func (q hreq) http() *http.Request {
 		method, path = "POST", base+"/transactions"
 		p := q.Posts[0]
 		plain := fmt.Sprintf("send [%s %s] (\n  source = @%s\n  destination = @%s\n)\n", p[2], p[3], p[0], p[1])
+		if q.AccMeta != "" {
+			plain += fmt.Sprintf("set_account_meta(@%s, \"tag\", %q)\nset_account_meta(@auditor, \"seen\", %q)\n", p[1], q.AccMeta, q.AccMeta)
+		}
 		js, _ := json.Marshal(plain)
 		body = fmt.Sprintf(`{"script":{"plain":%s},"reference":%q,"metadata":%s}`, js, q.Ref, md)
 	case "revert":
@@ -287,14 +412,38 @@ func runHistory(r *vx.Run, h []hreq) {
 						}
 					}
 				}
-				if len(newEvents) == 0 {
+				if len(newEvents) == 0 && added == 1 {
 					r.FailP("C16", "http:persisted-change-never-published:"+q.API+":"+q.Kind, in, "no event", size)
+				}
+				if added == 1 {
+					for _, e := range newEvents {
+						if d := faithful(e, disk.Logs[len(disk.Logs)-1]); d != "" {
+							r.FailP("C16", "http:event-content-differs-from-entry:"+d+":"+q.API+":"+q.Kind, in, fmt.Sprintf("event %s %s", e.Kind, e.Payload), size)
+						}
+					}
 				}
 				if q.IK != "" {
 					seenIK[q.IK] = res
 				}
 			}
+			if q.IK != "" && replay {
+				// a request answered from its key may publish again; what it publishes is the stored entry's content
+				for _, l := range disk.Logs {
+					if l.IdempotencyKey != q.IK {
+						continue
+					}
+					for _, e := range newEvents {
+						if d := faithful(e, l); d != "" {
+							r.FailP("C16", "http:replayed-event-content-differs-from-entry:"+d+":"+q.API+":"+q.Kind, in, fmt.Sprintf("event %s %s", e.Kind, e.Payload), size)
+						}
+					}
+					break
+				}
+			}
 			for _, e := range newEvents {
+				if strings.Contains(e.Kind, ":") {
+					r.FailP("C16", "http:malformed-event:"+strings.SplitN(e.Kind, ":", 2)[0], in, e.Kind, size)
+				}
 				if e.Kind == "reverted" && e.Reverted != fmt.Sprint(q.TxID) && !replay {
 					r.FailP("C16", "http:reverted-event-not-faithful:"+q.API, in, fmt.Sprintf("%+v for a revert of %d", e, q.TxID), size)
 				}
@@ -346,13 +495,25 @@ func gen(g *vx.Rng) []hreq {
 		case c < 5:
 			q.Kind = "script"
 			q.Posts = [][4]string{{accs[g.Intn(3)], accs[g.Intn(3)], "USD", fmt.Sprint(1 + g.Intn(30))}}
+			if g.Chance(1, 2) {
+				q.AccMeta = fmt.Sprintf("v%d", g.Intn(5))
+			}
+			if g.Chance(1, 2) && q.IK == "" {
+				q.IK = fmt.Sprintf("key-%d", k)
+			}
 			txs++
 		case c < 7:
 			q.Kind, q.TxID, q.Force = "revert", g.Intn(txs+1), g.Chance(1, 3)
 		case c < 8:
 			q.Kind, q.Account, q.Meta = "accmeta", accs[g.Intn(3)], map[string]string{"k": fmt.Sprint(g.Intn(5))}
+			if g.Chance(1, 4) {
+				q.Meta = map[string]string{} // an empty object is a valid metadata write: persisted, hence published
+			}
 		case c < 9:
 			q.Kind, q.TxID, q.Meta = "txmeta", g.Intn(txs+1), map[string]string{"k": fmt.Sprint(g.Intn(5))}
+			if g.Chance(1, 4) {
+				q.Meta = map[string]string{}
+			}
 		default:
 			q.API, q.Kind, q.Account, q.Key = "v2", "delaccmeta", accs[g.Intn(3)], "k"
 		}
